@@ -32,12 +32,12 @@ CLAIMED = {
   "The predicate must branch only on y%c ==/!= 0 tests (otherwise undecided). Nothing is executed; residues are abstract elements.",
   "constant evaluation by go/types + congruence-domain abstract interpretation of the CFG"),
  "C17": ("other",
-  "Structural clauses of 'always answers' and of the reporting rules, decided on every path of the runner: the deferred result encoding is registered first in the entry block and encodeResults calls Encode on the runner's writer exactly once on every path (one document per exit); every interface value dereferenced between decoding and Run and every argument of Run is non-nil on all paths (nil-ness lattice with per-return-site summaries; found and fixed the no-inputs request); the catalogue factory is nil-checked before the call; a float64 enters the result tree only through JsonSafeValue under !IsNaN && !IsInf(.,0) and every element/map entry comes from the JSON-safe functions; defaults are returned only with a message, defaulted parameters and missing inputs append warnings and all warnings are logged before Run; the runner lacks the dimension handshake of its sibling entry points (known finding). Equivalence with a direct run and panic-freedom of kernels are NOT decided.",
+  "Structural clauses of 'always answers' and of the reporting rules, decided on every path of the runner: the deferred result encoding is registered first in the entry block and encodeResults calls Encode on the runner's writer exactly once on every path (one document per exit); every interface value dereferenced between decoding and Run and every argument of Run is non-nil on all paths (nil-ness lattice with per-return-site summaries; found and fixed the no-inputs request); the catalogue factory is nil-checked before the call; a float64 enters the result tree only through JsonSafeValue under !IsNaN && !IsInf(.,0) and every element/map entry comes from the JSON-safe functions; defaults are returned only with a message, defaulted parameters and missing inputs append warnings and all warnings are logged before Run; request input k is copied into row k of the model's input array (position in the model description, not in the request); the runner lacks the dimension handshake of its sibling entry points (known finding). Equivalence with a direct run and panic-freedom of kernels are NOT decided.",
   "DESIGN.md section 2, C17",
   "Results of TimeSteppingModel interface methods are assumed non-nil by contract. Kernels run in goroutines the runner cannot recover; their panic-freedom is a value property.",
   "must-pass-through / dominance checks + interprocedural nil-ness lattice + guard-edge check of the non-finite encoding on go/ssa"),
  "C14": ("other",
-  "Structural necessary conditions of purity and causality, decided over every module function reachable (VTA call graph) from any wrapper method and over every kernel: no write of a package-level variable and no read of one that is written outside package initialisation; model struct fields are assigned only by ApplyParameters/InitialiseDimensions; no call of time.Now/rand/os.Getenv/file reads and no map iteration; in every kernel each read of an input series and each write of an output series inside the time loop uses the loop's own induction variable as time index (through the reaching store of the one-element index vector), inputs are read outside the loop only at index 0, no whole-series reduction of an input. Together these are sufficient for 'outputs up to t do not depend on inputs after t' given Get/Set semantics (C01). Bit-identity as such is not executed or compared.",
+  "Structural necessary conditions of purity and causality, decided over every module function reachable (VTA call graph) from any wrapper method and over every kernel: no write of a package-level variable and no read of one that is written outside package initialisation; model struct fields are assigned only by ApplyParameters/InitialiseDimensions; no call of time.Now/rand/os.Getenv/file reads and no map iteration; in every kernel each read of an input series and each write of an output series inside the time loop uses the loop's own induction variable as time index (through the reaching store of the one-element index vector), inputs are read outside the loop only at index 0, no whole-series reduction of an input; Run never writes storage reachable from its inputs/parameters arguments (a later run on the same arrays would see different inputs). Together these are sufficient for 'outputs up to t do not depend on inputs after t' given Get/Set semantics (C01). Bit-identity as such is not executed or compared.",
   "DESIGN.md section 2, C14",
   "One symbol-wide exception (routing.lag reads i-lagSteps). Stdlib internals (fmt, math) are not inspected. Rejected rule: 'every output written on every path' (early returns leave zero-initialised outputs, which the property's quantifier makes correct).",
   "call-graph reachability + global/field store scan + reaching-store evaluation of time indices on go/ssa"),
@@ -47,17 +47,17 @@ CLAIMED = {
   "Sub-step loop recognised as `for T > 0 { ...; T -= dt }`; versions of a source variable related through SSA phi webs; R13.4 treats non-polynomial subexpressions as opaque symbols.",
   "control-equivalence (dominance/post-dominance) of accumulations + symbolic polynomial comparison of update terms on go/ssa"),
  "C12": ("other",
-  "Narrow structural claim: delegation between constituent kernels is nil-safe. For every call in models/ that passes the constant nil for an array parameter of another kernel, an interprocedural nil-ness summary shows the callee (and its callees) invoke methods on that parameter only under a `!= nil` guard. This is the path the property names explicitly (decay-disabled dissolved-constituent storage delegates to the lumped routing kernel) and it found a genuine nil-pointer panic, now fixed. The mass budgets, non-negativity and the flush rule are value properties and are NOT decided.",
+  "Per-timestep mass budgets decided by polynomial normal form, nothing executed: for LumpedConstituentRouting, ConstituentDecay, InstreamFineSediment, InstreamCoarseSediment, InstreamParticulateNutrient and StorageParticulateTrapping, on every feasible CFG path through one iteration of the kernel's time loop, (carried stored masses after the step) + (mass leaving or reported: downstream/flood-plain/decayed/trapped loads, rates weighted by the model's own timestep parameter) - (stored masses before) - (mass entering) expands to the zero polynomial after clearing denominators; phis are resolved by the path, helper results are opaque symbols and, if a path does not close that way, scalar helpers are inlined along each of their paths; only paths through the documented flush edge (step water volume compared with a constant <= MINIMUM_VOLUME) are exempt. Delegation between kernels (incl. the decay-disabled StorageDissolvedDecay the property names) hands over every mass input, the timestep, mass outputs and the stored mass position for position, and is nil-safe (found and fixed a nil-pointer panic; found a genuine leak of reachLocalMass in the fine-sediment model's lumped branch, recorded as a known finding). Amounts a helper removes from a working mass are computed from that same mass. NOT decided: non-negativity as such, clamps that bind (decided for the non-binding case), the remobilisation bound, StorageTrapAll (no timestep parameter: no budget can be stated), initial-state conventions before the loop.",
   "DESIGN.md section 2, C12",
-  "Only constant-nil arguments at static call sites between module functions are obligations; nil values arriving through variables are not tracked.",
-  "interprocedural nil-dereference summaries with guard-edge dominance on go/ssa"),
+  "The table of mass terms per model (by OW-SPEC names) is part of the checker and restates the property. Clamps against constants are read as their non-constant argument. The budget is per step; closure over a period follows by induction on steps given C06 (state threading).",
+  "path-sensitive symbolic polynomial normal forms with denominator clearing and helper inlining over go/ssa + interprocedural nil-dereference summaries"),
  "C07": ("other",
   "Local invariants of the ow-sim hand-off protocol and the offset agreement, decided on the SSA of cmd/ow-sim: tokens on the writer channel are only the writer's own generation posted after writeGeneration(g) or re-posted received tokens; PurgeGeneration is only applied to received tokens (so nothing is purged before it is written); every writer path writes its generation exactly once; writer spawn and final wait share one guard; the final wait leaves only on token == genCount-1; runGeneration(i) dominates the writer spawn and link processing, links add source Outputs into destination Inputs; the loaded row range and the write offset of a generation are computed from the same leaves (0, Batches[g-1], Batches[g]); a generation returned with Count>0 has Inputs/Parameters/States assigned on every feasible path (zero inputs if none stored). Graph semantics, link sums and interleavings are NOT explored.",
   "DESIGN.md section 2, C07",
   "Anchors are found structurally (function reaching WriteData, goroutine calling it, its channel). No model checking of the writer/main interleavings; the token argument is an inductive invariant checked by local rules only.",
   "protocol invariants by dominance/must-pass-through on go/ssa + symbolic leaf comparison of offsets + bool-correlated definite assignment"),
  "C06": ("other",
-  "Decides, for every path of each of the 17 stateful kernels and all 41 wrappers, that what is carried between timesteps comes from and goes back to the state vector: every value carried around the time loop (SSA header phi or buffer allocated outside the loop and read before written) that influences outputs is initialised from a STATE argument and reaches a returned state; a state the kernel evolves is not returned unevolved; wrappers read state k into kernel argument nInputs+k and write the kernel's k-th state result back to position k (or extract→kernel→pack in matching order); the two custom pack/extract pairs store the contents of every component and read it at the same symbolic offset. This found five genuine defects (three repaired, two recorded as known findings needing new state variables). Numerical equality of split and unsplit runs is NOT decided.",
+  "Decides, for every path of each of the 17 stateful kernels and all 41 wrappers, that what is carried between timesteps comes from and goes back to the state vector: every value carried around the time loop (SSA header phi or buffer allocated outside the loop and read before written) that influences outputs is initialised from a STATE argument and reaches a returned state; a state the kernel evolves is not returned unevolved; wrappers read state k into kernel argument nInputs+k and write the kernel's k-th state result back to position k (or extract→kernel→pack in matching order); the two custom pack/extract pairs store the contents of every component and read it at the same symbolic offset; where a kernel hands the run to another catalogued kernel, the caller state passed as the callee's state k is the state the callee's evolved state k is returned as. This found five genuine defects (three repaired, two recorded as known findings needing new state variables). Numerical equality of split and unsplit runs is NOT decided.",
   "DESIGN.md section 2, C06",
   "One symbol-wide exception (storageRouting:qi, solver warm start, within the property's stated tolerance). Time loops are recognised as outermost loops bounded by a series length; control influence is approximated by branch regions.",
   "loop-carried-value (SSA phi / memory) provenance analysis + symbolic layout comparison of pack/extract"),
@@ -72,7 +72,7 @@ CLAIMED = {
   "Dims/OriginalDims are untyped; literals and lengths are polymorphic; a wrong constant factor would pass. In-bounds-ness of loc/dims/step is assumed.",
   "dimensional (unit) abstract interpretation over go/ssa + storage-sharing and addressing-path checks"),
  "C02": ("other",
-  "Structural clauses of the bulk operations, per element type: every range access Impl[a:b] and every write through x.Unroll() that relies on aliasing is dominated by Contiguous()==true on that object (or x is a fresh root array); the contiguity predicate branches on Step, Dims and OriginalDims/Offset; Go-backed Unroll returns a sub-slice of the storage when contiguous and Reshape builds on it; ReshapeFast fails exactly under !Contiguous(), Reshape succeeds exactly on the equal edge of the element-count comparison; fresh strides are laid over own storage only when contiguous; Argmax returns an index of its parameter (index-space typing; found and fixed an off-by-one). Equality of fast and general paths as values is NOT decided.",
+  "Structural clauses of the bulk operations, per element type: every range access Impl[a:b] and every write through x.Unroll() that relies on aliasing is dominated by Contiguous()==true on that object (or x is a fresh root array); the contiguity predicate branches on Step, Dims and OriginalDims/Offset; Go-backed Unroll returns a sub-slice of the storage when contiguous — and a gathered copy only on a path where Contiguous() is known false — and Reshape builds on it; ReshapeFast fails exactly under !Contiguous(), Reshape succeeds exactly on the equal edge of the element-count comparison; fresh strides are laid over own storage only when contiguous; Argmax returns an index of its parameter (index-space typing; found and fixed an off-by-one). Equality of fast and general paths as values is NOT decided.",
   "DESIGN.md section 2, C02",
   "Exactness of Contiguous' arithmetic and of Increment/Offsets/IDivMod/Product is not decided. C-backed types are judged under C03.",
   "guard-edge dominance, alias tracking of Unroll results and index-space typing on go/ssa"),
@@ -82,12 +82,12 @@ CLAIMED = {
   "No length information exists for *[1<<30]T, so buffer bounds cannot be decided; in-bounds loc is assumed. cgo-generated code is not modelled.",
   "sibling rule-set agreement + who-may-convert rule for unsafe.Pointer + dominator-based call-protocol check"),
  "C04": ("other",
-  "Structural necessary conditions of cell independence, decided on each of the 41 generated wrappers and their kernels: inputs and parameter views are never written (interprocedural effect summaries incl. Unroll aliases and closure captures); every write to states/outputs goes through a view restricted to the goroutine's own cell (pos[CELL]==i, size[CELL]==1, vectors allocated per goroutine); every broadcast `i % n` uses the extent of the array actually indexed; table parameters are cut to the cell's own length; kernel arguments are the spec's inputs/params/outputs in order. Equality of values with single-cell runs is NOT established directly.",
+  "Structural necessary conditions of cell independence, decided on each of the 41 generated wrappers and their kernels: inputs and parameter views are never written (interprocedural effect summaries incl. Unroll aliases and closure captures); every write to states/outputs goes through a view restricted to the goroutine's own cell (pos[CELL]==i, size[CELL]==1, vectors allocated per goroutine); every broadcast `i % n` uses the extent of the array actually indexed; table parameters are cut to the cell's own length; kernel arguments are the spec's inputs/params/outputs in order; no slice aliasing a shared array is grown with append; no package-level storage is written on the per-cell path (interprocedural, through helpers and slices of global arrays). Equality of values with single-cell runs is NOT established directly.",
   "DESIGN.md section 2, C04",
   "ND view methods (Slice/Reshape/MustReshape/ReshapeFast) are taken to share storage (checked separately by C01/C02). Row count of pack-function results proven only for constant extents. ApplyParameters row-block arithmetic not decided.",
   "effect summaries + reaching-store evaluation of index vectors on go/ssa, per generated wrapper"),
  "C05": ("other",
-  "Goroutine confinement and counted join for all 43 go statements in the module: captured variables are never assigned in the goroutine nor by the spawner once it may run; shared index vectors are never written (also not through Apply's loc); shared arrays are written only through per-cell views; every goroutine path signals exactly once and the spawner's returns are dominated by a receive loop with the same count. No schedule is explored; the claim is absence of shared mutable locations, from which schedule independence follows.",
+  "Goroutine confinement and counted join for all 43 go statements in the module: captured variables are never assigned in the goroutine nor by the spawner once it may run; shared index vectors are never written (also not through Apply's loc); shared arrays are written only through per-cell views; every goroutine path signals exactly once and the spawner's returns are dominated by a receive loop with the same count; no function reachable from a cell goroutine writes package-level storage. No schedule is explored; the claim is absence of shared mutable locations, from which schedule independence follows.",
   "DESIGN.md section 2, C05",
   "Does not decide the writer-vs-main access to modelReference.Generations (token argument, see C07). Pointer arguments of distinct goroutines assumed distinct. No happens-before reasoning beyond the done-channel join.",
   "escape/confinement analysis of go closures + must-pass-through send/receive join check on go/ssa CFGs"),
@@ -97,7 +97,7 @@ CLAIMED = {
   "hdf5 is opaque (cannot be compiled here): its API is classified reader/writer/neutral by a table in tool/c08.go. Recursive read-locking is treated conservatively. Outside package io the unexported lock cannot be held: such calls are accepted only where statically no goroutine started by module code can exist.",
   "interprocedural lock-state dataflow (must-hold) over go/ssa + call-graph reachability + dominance of guard edges"),
  "C16": ("other",
-  "Decided by normal forms, not by running anything: (R16.3) for the partition, scaling, conversion, mask and concentration kernels the value written to each output on every write site is expanded to a polynomial over canonical symbols (input k at the loop's time index, parameter k) and compared with the property's identities: the two outputs of the fixed/variable/rating-curve partitions sum identically to the input; scale/delivery-ratio/depth-to-rate/concentration models are exactly the stated monomial with the exact unit factor (mm->m, mg/L->kg/m3); totals equal the sum of their parts; gate/pass-through masks write the input (x factor) exactly on the positive side of their driver test and zero otherwise. (R16.1) every A_TO_B conversion constant equals magnitude(A)/magnitude(B) exactly (rational arithmetic by the type checker) and inverse pairs multiply to 1; (R16.2) constants are used as factors only. The larger generation models (bank erosion, USLE, gully, particulate nutrients) and the demand partition's min/max clauses are NOT covered by identities.",
+  "Decided by normal forms, not by running anything: (R16.3) for the partition, scaling, conversion, mask and concentration kernels the value written to each output on every write site is expanded to a polynomial (and each such output is written on every path through a timestep) over canonical symbols (input k at the loop's time index, parameter k) and compared with the property's identities: the two outputs of the fixed/variable/rating-curve partitions sum identically to the input; scale/delivery-ratio/depth-to-rate/concentration models are exactly the stated monomial with the exact unit factor (mm->m, mg/L->kg/m3); totals equal the sum of their parts; gate/pass-through masks write the input (x factor) exactly on the positive side of their driver test and zero otherwise. (R16.1) every A_TO_B conversion constant equals magnitude(A)/magnitude(B) exactly (rational arithmetic by the type checker) and inverse pairs multiply to 1; (R16.2) constants are used as factors only. The larger generation models (bank erosion, USLE, gully, particulate nutrients) and the demand partition's min/max clauses are NOT covered by identities.",
   "DESIGN.md section 2, C16",
   "Identity table (model -> expected polynomial) is part of the checker and restates the property; opaque calls (Piecewise, Min/Max) are symbols. SI table of unit words in tool/c16.go.",
   "symbolic polynomial normal forms over go/ssa values + go/types constant evaluation"),
